@@ -58,7 +58,10 @@ Qed.
 Lemma rational_roundtrip_needs_no_slash :
   exists q rs, canonical q /\ head_nondigit rs /\
                rat_read (from_chars (rat_write q ++ rs)) <> (Some q, after (rat_rest q rs)).
-Proof. exists (3, 1), [32; 47; 120]. repeat split; [reflexivity| |]; vm_compute; try reflexivity. discriminate. Qed.
+Proof.
+  exists (3, 1), [32; 47; 120]. split; [split; reflexivity|]. split; [reflexivity|].
+  vm_compute. discriminate.
+Qed.
 
 (* ---- Rational(const char * ) *)
 Definition Rational_string_roundtrip_stmt : Prop :=
